@@ -28,6 +28,11 @@ fn lookup(id: &str) -> Option<(RunFn, ReplayFn)>
     match id
     {
         "C01" => Some((props::c01::run, props::c01::replay)),
+        "C02" => Some((props::c02::run, props::c02::replay)),
+        "C07" => Some((props::audits::run_c07, props::audits::replay_c07)),
+        "C08" => Some((props::audits::run_c08, props::audits::replay_c08)),
+        "C09" => Some((props::audits::run_c09, props::audits::replay_c09)),
+        "C20" => Some((props::audits::run_c20, props::audits::replay_c20)),
         "C12" => Some((props::c12::run, props::c12::replay)),
         "C13" => Some((props::c13::run, props::c13::replay)),
         "C14" => Some((props::c14::run, props::c14::replay)),
